@@ -32,36 +32,39 @@ Proof. unfold td3_target_Q. rewrite Qred_correct. symmetry. apply frag_targets. 
 Lemma frag_td3_delay n delay : td3_delay_guard n delay = td3_actor_step n delay.
 Proof. unfold td3_delay_guard, td3_actor_step. lia. Qed.
 
-Lemma frag_adv_norm a m s :
+Lemma frag_adv_norm a m s : ~ s + (1 # 100000000) == 0 ->
   ppo_adv_norm a m s == (a - m) / (s + (1 # 100000000)) /\ a2c_adv_norm a m s == (a - m) / (s + (1 # 100000000)).
-Proof. unfold ppo_adv_norm, a2c_adv_norm. split; reflexivity. Qed.
-
-Lemma frag_adv_norm_model advs std :
-  Forall2 Qeq (adv_norm_Q advs std) (map (fun a => ppo_adv_norm a (qmean advs) std) advs).
 Proof.
-  unfold adv_norm_Q. generalize (qmean advs) as m. intros m.
-  induction advs as [|a t IH]; cbn [map]; constructor; [|exact IH].
-  rewrite Qred_correct. unfold ppo_adv_norm. reflexivity.
+  intros H. unfold ppo_adv_norm, a2c_adv_norm.
+  split; field; intro C; apply H; rewrite <- C; ring.
 Qed.
 
-Lemma frag_surr A c r : ppo_surr_Q A c r == - Qmin (ppo_surr1 A r) (A * qclamp (1 - c) (1 + c) r).
-Proof. unfold ppo_surr_Q, ppo_surr1. reflexivity. Qed.
+Lemma frag_adv_norm_model advs std : ~ std + (1 # 100000000) == 0 ->
+  Forall2 Qeq (adv_norm_Q advs std) (map (fun a => ppo_adv_norm a (qmean advs) std) advs).
+Proof.
+  intros H. unfold adv_norm_Q. generalize (qmean advs) as m. intros m.
+  induction advs as [|a t IH]; cbn [map]; constructor; [|exact IH].
+  rewrite Qred_correct. symmetry. apply (frag_adv_norm a m std H).
+Qed.
+
+Lemma frag_surr A r : ppo_surr1 A r == A * r.
+Proof. unfold ppo_surr1. ring. Qed.
 
 Lemma frag_losses p e v ec vc :
   ppo_loss p e v ec vc == p + ec * e + vc * v /\ a2c_loss p e v ec vc == p + ec * e + vc * v.
-Proof. unfold ppo_loss, a2c_loss. split; reflexivity. Qed.
+Proof. unfold ppo_loss, a2c_loss. split; ring. Qed.
 
 Lemma frag_ppo_loss c cv ec vc he advs ratios rets oldvs vs ents :
   fst (ppo_batch_Q c cv ec vc he advs ratios rets oldvs vs ents)
   == ppo_loss (qmean (qmap2 (fun a r => ppo_surr_Q a c r) advs ratios)) (qmean ents)
        (qmean (qmap3 (fun ret o v => (ret - ppo_value_pred_Q cv o v) * (ret - ppo_value_pred_Q cv o v)) rets oldvs vs)) ec vc.
-Proof. unfold ppo_batch_Q. cbn [fst]. rewrite Qred_correct. unfold ppo_loss. reflexivity. Qed.
+Proof. unfold ppo_batch_Q. cbn [fst]. rewrite Qred_correct. symmetry. apply frag_losses. Qed.
 
 Lemma frag_a2c_loss ec vc he advs lps rets vs ents :
   fst (a2c_batch_Q ec vc he advs lps rets vs ents)
   == a2c_loss (Qred (- qmean (qmap2 Qmult advs lps))) (qmean ents)
        (qmean (qmap2 (fun ret v => (ret - v) * (ret - v)) rets vs)) ec vc.
-Proof. unfold a2c_batch_Q. cbn [fst]. rewrite Qred_correct. unfold a2c_loss. reflexivity. Qed.
+Proof. unfold a2c_batch_Q. cbn [fst]. rewrite Qred_correct. symmetry. apply frag_losses. Qed.
 
 (* ---------------- (b) Q twins compute the real-valued definitions ---------------- *)
 Local Open Scope R_scope.
